@@ -296,7 +296,7 @@ impl TimeZone {
             let earlier_date = IsoDate::balance(
                 iso.date.year,
                 iso.date.month.into(),
-                i32::from(iso.date.day) + earlier_time.0,
+                i32::from(iso.date.day) + earlier_time.0 as i32,
             );
 
             // d. Let earlierDateTime be
@@ -320,7 +320,7 @@ impl TimeZone {
         let later_date = IsoDate::balance(
             iso.date.year,
             iso.date.month.into(),
-            i32::from(iso.date.day) + later_time.0,
+            i32::from(iso.date.day) + later_time.0 as i32,
         );
         // 21. Let laterDateTime be CombineISODateAndTimeRecord(laterDate, laterTime).
         let later = IsoDateTime::new_unchecked(later_date, later_time.1);
